@@ -227,9 +227,24 @@ Definition c_load (w : nat) (ops : list op) : cthread :=
       end
   end.
 
+(** The distributed Variable is named after (bucket, key) only, so it is cluster state that
+    survives between uploads to the same object: [v0] is whatever an earlier upload left in it
+    (an upload that was abandoned before [finalise] never ran [cleanup_client]).
+    [prep_client] (_s3.py:241-244, run by [MultiPartUpload.writer] when a client exists) resets
+    it: [v.set(None)]. *)
+Definition c_prep_client (v0 : option Z) : option Z := None.
+(** what [prep_client] did before it reset the variable (seeded variant): it only bound it *)
+Definition c_prep_client_noreset (v0 : option Z) : option Z := v0.
+
+Definition c_init_var (var0 : option Z) (progs : list (nat * list op)) : cstate :=
+  (mkCS (fun _ => 0) var0 false None 0%nat [], map (fun p => c_load (fst p) (snd p)) progs).
+
 (** a thread is given as (worker it runs on, its program) *)
-Definition c_init (progs : list (nat * list op)) : cstate :=
-  (mkCS (fun _ => 0) None false None 0%nat [], map (fun p => c_load (fst p) (snd p)) progs).
+Definition c_init (progs : list (nat * list op)) : cstate := c_init_var None progs.
+
+(** start of an upload on a cluster whose variable for this object holds [v0] *)
+Definition c_init_after (v0 : option Z) (progs : list (nat * list op)) : cstate :=
+  c_init_var (c_prep_client v0) progs.
 
 Definition set_uid (uids : nat -> Z) (w : nat) (v : Z) : nat -> Z :=
   fun w' => if Nat.eqb w' w then v else uids w'.
